@@ -22,6 +22,9 @@ def run(rp):
     reg = cmod.REG
     c = reg.contracts[rp["target"]]
     native = getattr(cmod, "NATIVE", {})
+    if c.concretize is not None:
+        # contract-provided translation of the solver model into realisable inputs (DESIGN 1.3 `concretize`)
+        rp["inputs"] = c.concretize(rp["inputs"])
     ctx = {"stubs": {}, "ufs": rp["inputs"].get("ufs", {}), "opaque_classes": reg.opaque_classes,
            "opaque_factories": native.get("opaque_factories", {})}
     N.CTX.clear()
@@ -36,6 +39,9 @@ def run(rp):
         N.GHOST[g] = v if not hasattr(v, "make") else None
     patched = []
     for call in rp["inputs"].get("calls", []):
+        cc = reg.contracts.get(call["target"])
+        if cc is not None and cc.replay_real:
+            continue
         N.CALLS.setdefault(call["target"], []).append(call)
     for tgt in list(N.CALLS):
         if ":" in tgt and not tgt.split(":")[0] in ("threading", "re"):
@@ -62,8 +68,15 @@ def run(rp):
     env = dict(native.get("helpers", {}))
     for alias, fq in reg.aliases.items():
         if alias not in env:
-            meth = fq.rsplit(".", 1)[-1]
-            env[alias] = (lambda m: (lambda obj, *a: getattr(obj, m)(*a)))(meth)
+            path = fq.partition(":")[2]
+            if "." not in path:
+                env[alias] = (lambda q: (lambda *a: N.resolve(q)(*a)))(fq)  # a module-level function: call the real one
+            else:
+                meth = path.rsplit(".", 1)[-1]
+                if reg.contracts[fq].kind == "attribute":
+                    env[alias] = (lambda m: (lambda obj: getattr(obj, m)))(meth)
+                else:
+                    env[alias] = (lambda m: (lambda obj, *a: getattr(obj, m)(*a)))(meth)
     if c.native_setup is not None:
         fn, args = c.native_setup(args, ctx)
     else:
